@@ -173,6 +173,20 @@ func referenceDoc(comp templ.Component, rs *interp.RenderState) (string, error) 
 	return sb.String(), nil
 }
 
+// reportFail passes at most maxPerSignature failing cases of one signature on to the check (the check
+// prints a bounded number of violations; a flood of one signature must not hide the others, e.g. those
+// that come from the trace validation). All of them are counted in failsBySig.
+const maxPerSignature = 2
+
+var failsBySig = map[string]int{}
+
+func reportFail(sig, what string, c any) {
+	failsBySig[sig]++
+	if failsBySig[sig] <= maxPerSignature {
+		vhlib.Fail(sig, what, c)
+	}
+}
+
 func poolEvents(ev []interp.Event) []string {
 	var out []string
 	for _, e := range ev {
@@ -219,7 +233,7 @@ func check(c *caseT, doc string, modelOK bool, seq []string, idx int, exp runExp
 	fail := func(sig, what, detail string) {
 		rep.Detail = detail
 		stats["fails"]++
-		vhlib.Fail(sig, what, rep)
+		reportFail(sig, what, rep)
 	}
 	lfired := exp.Plan.L.K == "cancel" || o.rs.ExprErr || o.rs.LeafErr
 	anyFault := o.fired || lfired
@@ -326,7 +340,7 @@ func check(c *caseT, doc string, modelOK bool, seq []string, idx int, exp runExp
 		if e.Ev == "acquire" && e.Dirty {
 			stats["fails"]++
 			rep.Detail = "acquire event reports buffered bytes or a sticky error after Reset"
-			vhlib.Fail("NoCarryOver", "a buffer was acquired that is not empty with a nil error", rep)
+			reportFail("NoCarryOver", "a buffer was acquired that is not empty with a nil error", rep)
 		}
 	}
 	if len(d) > 0 {
@@ -438,7 +452,7 @@ func cases(args []string) {
 		modelDoc := strings.Join(g[0].Doc, "")
 		if rerr != nil {
 			stats["fails"]++
-			vhlib.Fail("NoFaultMeansNil", "the program does not render without a fault", map[string]any{"program": progString(g[0].Prog), "error": rerr.Error()})
+			reportFail("NoFaultMeansNil", "the program does not render without a fault", map[string]any{"program": progString(g[0].Prog), "error": rerr.Error()})
 			doc = modelDoc
 		}
 		modelOK := doc == modelDoc
@@ -495,7 +509,7 @@ func cases(args []string) {
 	}
 	traceOut.Close()
 	vhlib.Summary(map[string]any{"cases": ncases, "programs": len(order), "renders": stats["renders"], "fails": stats["fails"],
-		"drift": stats["drift"], "doc_drift_programs": stats["doc_drift_programs"], "trace_events": traceN, "hook_calls": interp.HooksFired(), "plan_kinds": kinds})
+		"fails_by_signature": failsBySig, "drift": stats["drift"], "doc_drift_programs": stats["doc_drift_programs"], "trace_events": traceN, "hook_calls": interp.HooksFired(), "plan_kinds": kinds})
 }
 
 // ---------------------------------------------------------------------------------------------
@@ -555,7 +569,7 @@ func fixtures(args []string) {
 		}
 		bad := func(sig, what string, detail any) {
 			fails++
-			vhlib.Fail(sig, f.name+": "+what, detail)
+			reportFail(sig, f.name+": "+what, detail)
 		}
 		doc, err, _ := run(f.mk(nil), -1, "none", false)
 		if err != nil {
@@ -609,5 +623,5 @@ func fixtures(args []string) {
 		}
 	}
 	traceOut.Close()
-	vhlib.Summary(map[string]any{"renders": renders, "fails": fails, "trace_events": traceN, "hook_calls": interp.HooksFired()})
+	vhlib.Summary(map[string]any{"renders": renders, "fails": fails, "fails_by_signature": failsBySig, "trace_events": traceN, "hook_calls": interp.HooksFired()})
 }
